@@ -3478,7 +3478,14 @@ impl GatheringTask for StopTask {
             ServerState::Stopping,
             "StopTask::on_finish must leave the master in the Stopping state"
         );
-        if !hard_stop_timed_out {
+        if hard_stop_timed_out {
+            // already answered above
+        } else if self.gatherer.errors > 0 {
+            client.finish_failure(format!(
+                "Closed {} workers, {} errors, stopping the main process...",
+                self.gatherer.ok, self.gatherer.errors
+            ));
+        } else {
             client.finish_ok(format!(
                 "Successfully closed {} workers, {} errors, stopping the main process...",
                 self.gatherer.ok, self.gatherer.errors
